@@ -57,6 +57,8 @@ type LogWrap struct {
 	getErr    string
 	recent    map[uint64]string // payload the callback was handed, for recent offsets
 	Mismatch  string            // first Get(o) that disagreed with what Consume handed for o
+	delayNext int
+	delay     time.Duration
 }
 
 func (l *LogWrap) Close() error { return l.real.Close() }
@@ -70,7 +72,15 @@ func (l *LogWrap) Append(p *packet.Publish) error {
 		atomic.AddInt64(l.act, 1)
 		return errors.New("injected log append failure")
 	}
+	delay := time.Duration(0)
+	if l.delayNext > 0 {
+		l.delayNext--
+		delay = l.delay
+	}
 	l.mu.Unlock()
+	if delay > 0 {
+		time.Sleep(delay) // a slow disk / a busy peer: the append succeeds, late
+	}
 	err := l.real.Append(p)
 	l.mu.Lock()
 	l.appends = append(l.appends, AppendRec{atomic.AddInt64(l.seq, 1), string(p.Topic), string(p.Payload), err != nil})
@@ -127,6 +137,13 @@ func (l *LogWrap) Stream(ctx context.Context, consumer stream.Consumer, f func(*
 
 // ReadBackMismatch reports the first disagreement between Get and Consume ("" = none).
 func (l *LogWrap) ReadBackMismatch() string { l.mu.Lock(); defer l.mu.Unlock(); return l.Mismatch }
+
+// DelayNext makes the next k appends take d of real time (and then succeed).
+func (l *LogWrap) DelayNext(k int, d time.Duration) {
+	l.mu.Lock()
+	l.delayNext, l.delay = k, d
+	l.mu.Unlock()
+}
 
 // FailNext makes the next k appends fail without touching the log.
 func (l *LogWrap) FailNext(k int) { l.mu.Lock(); l.failNext = k; l.mu.Unlock() }
